@@ -35,6 +35,7 @@ CONSTANTS NCallers,    \* callers are 1..NCallers
           MaxFaults,   \* >= 1: one faulty server answer may occur; the read timeout is not budgeted, except
                        \* in role 2 where (faulty answer, read timeout) together are at most MaxFaults
           WithClose,   \* Broker.Close may race with the calls
+          NoResp,      \* number of requests without response (acks=0 produce) a further goroutine may send
           EmitCases,   \* role 2: record the projection of the behaviour replayed by the harness; the
                        \* read timeout may then fire only after `timeoutAt` server answers (scripted)
           Conducted    \* role 2: environment steps (start a call, Close, a server answer, the read
@@ -44,6 +45,7 @@ CONSTANTS NCallers,    \* callers are 1..NCallers
 Callers == 1..NCallers
 None == 0                 \* b.lock is free
 CloserId == NCallers + 1  \* b.lock held by Broker.Close
+FirerId == NCallers + 2   \* b.lock held by the goroutine that sends requests without response
 \* wrongid/nested/ooo: well-framed frames with a correlation id that is not the oldest outstanding one;
 \* bodystall: intact header, fewer body bytes than announced, connection stays open and the peer goes on
 \* answering after the client's read timeout; runt: length field <= 4 (no room for a body; shorter than a
@@ -67,6 +69,7 @@ VARIABLES max,        \* Net.MaxOpenRequests of this connection
           chClosed, rdone, connOpen, closer,   \* Close protocol
           srvEnded, srvClosed, srvFaulted,  \* server state
           faultAt, timeoutAt, nans,                 \* server script: which answer is faulty, number of answers so far
+          pcf, nnr,   \* the goroutine sending no-response requests: idle / want / locked ; requests sent so far
           burst,      \* Conducted: "spawn" / "srv" while a burst of call starts / of server frames is going on
           sent,       \* history: frames the server sent
           done,       \* history: finished calls
@@ -75,7 +78,7 @@ VARIABLES max,        \* Net.MaxOpenRequests of this connection
 
 vars == <<max, quota, willClose, pc, ncall, lock, corr, req, unans, respQ, recv, srvOut, dead,
           chClosed, rdone, connOpen, closer, srvEnded, srvClosed, srvFaulted,
-          faultAt, timeoutAt, nans, burst, sent, done, errSeen, hist>>
+          faultAt, timeoutAt, nans, pcf, nnr, burst, sent, done, errSeen, hist>>
 
 Tag(c) == <<c, ncall[c]>>
 NonIncreasing(q) == \A k \in 1..(NCallers - 1) : q[k] >= q[k + 1]
@@ -92,7 +95,7 @@ Init ==
   /\ faultAt \in (IF MaxFaults = 0 THEN {0} ELSE 0..(NCallers * Calls))   \* 0: no faulty answer
   /\ timeoutAt \in (IF EmitCases THEN 0..(NCallers * Calls + 1) ELSE {0})    \* scripted: N+1 = never
   /\ EmitCases => (IF faultAt # 0 THEN 1 ELSE 0) + (IF timeoutAt # NCallers * Calls + 1 THEN 1 ELSE 0) <= MaxFaults
-  /\ nans = 0 /\ burst = "none"
+  /\ nans = 0 /\ burst = "none" /\ pcf = "idle" /\ nnr = 0
   /\ srvEnded = FALSE /\ srvClosed = FALSE /\ srvFaulted = FALSE
   /\ sent = {} /\ done = {} /\ errSeen = FALSE
   /\ hist = <<>>
@@ -264,6 +267,32 @@ Server(kind) ==
                  connOpen, closer, done, errSeen>>
 
 -----------------------------------------------------------------------------
+(* Broker.send with promiseResponse = false (e.g. Produce with RequiredAcks = NoResponse): lock, write,
+   correlationID++, return - no promise, not bounded by MaxOpenRequests. Broker.write arms only the
+   WRITE deadline of the connection: these writes do not touch the receiver's pending read, whose
+   deadline (RecvTimeout / RecvStall) stays armed - the trace clause read_timeout_honoured measures that. *)
+FireStart ==
+  /\ pcf = "idle" /\ nnr < NoResp
+  /\ pcf' = "want" /\ nnr' = nnr + 1
+  /\ H("fire", 0, "-")
+  /\ UNCHANGED <<max, quota, willClose, pc, ncall, lock, corr, req, unans, respQ, recv, srvOut, dead, chClosed,
+                 rdone, connOpen, closer, srvEnded, srvClosed, srvFaulted, sent, done, errSeen>>
+FireLock ==
+  /\ pcf = "want" /\ lock = None
+  /\ pcf' = "locked" /\ lock' = FirerId
+  /\ NoH
+  /\ UNCHANGED <<max, quota, willClose, pc, ncall, corr, req, unans, respQ, recv, srvOut, dead, chClosed,
+                 rdone, connOpen, closer, srvEnded, srvClosed, srvFaulted, sent, done, errSeen, nnr>>
+\* ErrNotConnected, a write error or nil: the call returns in every case
+FireWrite ==
+  /\ pcf = "locked"
+  /\ pcf' = "idle" /\ lock' = None
+  /\ corr' = IF connOpen THEN corr + 1 ELSE corr
+  /\ H("fired", 0, "-")
+  /\ UNCHANGED <<max, quota, willClose, pc, ncall, req, unans, respQ, recv, srvOut, dead, chClosed,
+                 rdone, connOpen, closer, srvEnded, srvClosed, srvFaulted, sent, done, errSeen, nnr>>
+
+-----------------------------------------------------------------------------
 \* some step of the client's own goroutines is enabled (the guards of the actions above)
 ClientStepEnabled ==
   \/ \E c \in Callers : \/ (pc[c] = "want" /\ lock = None)
@@ -274,21 +303,26 @@ ClientStepEnabled ==
   \/ (chClosed /\ ~rdone /\ respQ = <<>> /\ recv = <<>>)
   \/ (closer = "want" /\ lock = None)
   \/ (closer = "waiting" /\ rdone)
+  \/ (pcf = "want" /\ lock = None) \/ pcf = "locked"
 EnvOK(b) == ~Conducted \/ ~ClientStepEnabled \/ (b # "none" /\ burst = b)
 Burst(b) == burst' = IF Conducted THEN b ELSE "none"
 LowestStartable(c) == \A d \in Callers : (pc[d] = "idle" /\ ncall[d] < quota[d]) => c <= d
 Script == UNCHANGED <<faultAt, timeoutAt>>
+NoFire == UNCHANGED <<pcf, nnr>>
 
-Int(A) == A /\ burst' = "none" /\ Script /\ UNCHANGED nans      \* a step of the client's own goroutines
+Int(A) == A /\ burst' = "none" /\ Script /\ NoFire /\ UNCHANGED nans      \* a step of the client's own goroutines
 EStart(c) == /\ Start(c) /\ (Conducted => LowestStartable(c))
-             /\ EnvOK("spawn") /\ Burst("spawn") /\ Script /\ UNCHANGED nans
+             /\ EnvOK("spawn") /\ Burst("spawn") /\ Script /\ NoFire /\ UNCHANGED nans
 \* (conducted: Close is started at quiescent points only - against outstanding and blocked calls; a
 \* spawn burst mixing Close and calls is a race no conductor can steer, simulation covers those)
-ECloseStart == CloseStart /\ EnvOK("none") /\ burst' = "none" /\ Script /\ UNCHANGED nans
+ECloseStart == CloseStart /\ EnvOK("none") /\ burst' = "none" /\ Script /\ NoFire /\ UNCHANGED nans
 \* (the peer may pipeline several frames before the client reacts)
-EServer(k) == Server(k) /\ EnvOK("srv") /\ Burst("srv") /\ Script /\ nans' = nans + 1
-ETimeout == RecvTimeout /\ EnvOK("none") /\ burst' = "none" /\ Script /\ UNCHANGED nans
-EStall == RecvStall /\ EnvOK("none") /\ burst' = "none" /\ Script /\ UNCHANGED nans
+EServer(k) == Server(k) /\ EnvOK("srv") /\ Burst("srv") /\ Script /\ NoFire /\ nans' = nans + 1
+ETimeout == RecvTimeout /\ EnvOK("none") /\ burst' = "none" /\ Script /\ NoFire /\ UNCHANGED nans
+EStall == RecvStall /\ EnvOK("none") /\ burst' = "none" /\ Script /\ NoFire /\ UNCHANGED nans
+
+EFireStart == FireStart /\ EnvOK("none") /\ burst' = "none" /\ Script /\ UNCHANGED nans
+IFire(A) == A /\ burst' = "none" /\ Script /\ UNCHANGED nans
 
 Next ==
   \/ \E c \in Callers : EStart(c)
@@ -298,6 +332,7 @@ Next ==
   \/ \E c \in Callers : Int(Lock(c)) \/ Int(NotConn(c)) \/ Int(Write(c)) \/ Int(WriteFail(c)) \/ Int(Enqueue(c))
   \/ Int(RecvTake) \/ Int(RecvRead) \/ Int(RecvDead) \/ Int(RecvExit)
   \/ Int(CloseLock) \/ Int(CloseFinish)
+  \/ EFireStart \/ IFire(FireLock) \/ IFire(FireWrite)
 
 Spec == Init /\ [][Next]_vars
 
@@ -309,12 +344,14 @@ Fair ==
                          /\ WF_vars(Int(Enqueue(c)))
   /\ WF_vars(Int(RecvTake)) /\ WF_vars(Int(RecvRead) \/ ETimeout \/ EStall) /\ WF_vars(Int(RecvDead)) /\ WF_vars(Int(RecvExit))
   /\ WF_vars(Int(CloseLock)) /\ WF_vars(Int(CloseFinish))
+  /\ WF_vars(IFire(FireLock)) /\ WF_vars(IFire(FireWrite))
 FairSpec == Spec /\ Fair
 
 -----------------------------------------------------------------------------
 (* properties *)
 TypeOK ==
-  /\ max \in MaxSet /\ lock \in Callers \cup {None, CloserId}
+  /\ max \in MaxSet /\ lock \in Callers \cup {None, CloserId, FirerId}
+  /\ pcf \in {"idle", "want", "locked"} /\ nnr <= NoResp
   /\ \A c \in Callers : pc[c] \in {"idle", "want", "locked", "wrote", "waiting"} /\ ncall[c] <= quota[c]
   /\ Len(respQ) <= max - 1 /\ Len(recv) <= 1
   /\ closer \in {"idle", "want", "waiting", "done"}
@@ -345,11 +382,13 @@ DeadIsSticky == [][dead => dead']_vars
 Busy(c) == pc[c] # "idle"
 EveryCallReturns == \A c \in Callers : Busy(c) ~> ~Busy(c)
 CloseReturns == (closer = "want") ~> (closer = "done")
+FireReturns == (pcf = "want") ~> (pcf = "idle")
 
 -----------------------------------------------------------------------------
 (* role 2: emit the projection of every complete behaviour as one JSON case *)
 Complete == /\ \A c \in Callers : pc[c] = "idle" /\ ncall[c] = quota[c]
             /\ willClose => closer = "done"
+            /\ pcf = "idle"
 Emit == (EmitCases /\ Complete) =>
           PrintT(<<"CASE", ToJson([max |-> max, steps |-> hist])>>)
 =============================================================================
